@@ -42,9 +42,9 @@ def export_schemas():
     return wd, res
 
 
-def gen_cases(binary, schemas_path, out_path, seed, per, budget, malmax, over, types=None, maxmin=70000):
+def gen_cases(binary, schemas_path, out_path, seed, per, budget, malmax, over, types=None, maxmin=70000, startk=0):
     cmd = [binary, "gen", "-schemas", schemas_path, "-seed", str(seed), "-per", str(per), "-budget", str(budget),
-           "-malmax", str(malmax), "-over", str(over), "-maxmin", str(maxmin), "-out", out_path]
+           "-malmax", str(malmax), "-over", str(over), "-maxmin", str(maxmin), "-out", out_path, "-startk", str(startk)]
     if types:
         cmd += ["-types", types]
     p = lib.run(cmd, env=_go_env(), timeout=600)
@@ -167,7 +167,7 @@ def in_statement(dev):
 
 
 def run_pipeline(pid, tier, seed, presets, per, budget, malmax, over, rounds=1, types=None, time_budget=None,
-                 shard_timeout=900):
+                 shard_timeout=900, startk=0):
     """Returns (stats, deviations) where deviations = list of dicts {prop,type,preset,dev,case,known}."""
     t0 = time.time()
     binary = lib.build_harness("ssz")
@@ -188,7 +188,7 @@ def run_pipeline(pid, tier, seed, presets, per, budget, malmax, over, rounds=1, 
         for preset in presets:
             cpath = os.path.join(lib.scratch("sszcases"), "cases_%s_%d.ndjson" % (preset, rnd))
             info = gen_cases(binary, os.path.join(schemas_dir, "schemas_%s.json" % preset), cpath, rseed, per, budget,
-                             malmax, over, types=types)
+                             malmax, over, types=types, startk=startk)
             stats["skipped_too_big"][preset] = info.get("skipped_too_big") or []
             # a few shards per TLC slot: better balance, and every TLC run stays short
             share = max(2, (3 * TLC_SLOTS) // max(1, len(presets)))
@@ -484,8 +484,9 @@ def run_typed_views(tier, seed):
     if p.returncode != 0 or len(names) < 40:
         raise lib.InfraError("ssz viewtypes failed: %s" % p.stderr[-1000:])
     rx = "^(" + "|".join(re.escape(n) for n in names) + ")$"
-    stats, devs = run_pipeline("C15", tier, seed, ["minimal", "tiny_b"], per=per, budget=3000, malmax=0, over=0, rounds=1,
-                               types=rx)
+    # values: one all-ones value and random ones (accessors of same-typed neighbouring fields must be told apart)
+    stats, devs = run_pipeline("C15", tier, seed, ["minimal", "tiny_b"], per=per + 1, budget=3000, malmax=0, over=0, rounds=1,
+                               types=rx, startk=2)
     stats["view_types"] = len(names)
     if stats["binding_gaps"]:
         raise lib.InfraError("schema table and Go registry disagree: %s" % sorted(stats["binding_gaps"]))
